@@ -301,6 +301,11 @@ func checkSelect(rec *stats.Recorder, c selCase) (f selFailure, ok bool) {
 			}
 		}
 	}
+	// "snapshots handed to readers are immutable": selecting from the snapshot (any number of times, through every path above)
+	// must have left it as it was
+	if !sameState(w, st) {
+		return selFailure{check: "select-snapshot", msg: fmt.Sprintf("selecting hosts changed the snapshot: announced %s, now %v%s", st, w, desc)}, false
+	}
 	return selFailure{}, true
 }
 
